@@ -464,7 +464,8 @@ func (x *fwdExec) step1(a fwdAct) map[string]any {
 	sh := x.pcs.VerifShape()
 	ev["obs"] = map[string]int{"npit": sh.NPit, "ncs": sh.NCs, "ents": len(sh.Entries), "csn": len(sh.CsNames),
 		"nodes": sh.Nodes, "dead": sh.DeadLeaves, "lru": sh.LruLen, "tokmap": sh.TokenMap, "queue": sh.QueueLen,
-		"unsched": countUnsched(sh), "dnl": th.VerifDNL().VerifLen(), "live": liveNodes(sh)}
+		"unsched": countUnsched(sh), "dnl": th.VerifDNL().VerifLen(), "live": liveNodes(sh),
+		"rpit": th.GetNumPitEntries(), "rcs": th.GetNumCsEntries(), "tpit": x.pcs.PitSize(), "tcs": x.pcs.CsSize()} // sizes as reported to management / applications
 	return ev
 }
 
